@@ -352,3 +352,8 @@ package main
 //@   loop 2 invariant result != nil && fresh(result) && 0 <= rangeidx && forall(k, string, old(has(body, k)) ==> has(result, k) && result[k] == old(body[k])) && forall(j, 0, rangeidx, typeDef.Fields[j].Default != nil && litExpr(typeDef.Fields[j].Default) ==> has(result, typeDef.Fields[j].Name))
 //@ func createCompiledRouteHandler$1
 //@   assertat "if err := validateCompiledInput(route, bodyMap); err != nil {" bodyMap != nil && declC(route) ==> forall(j, 0, len(declCTD(route).Fields), declCTD(route).Fields[j].Default != nil && litExpr(declCTD(route).Fields[j].Default) ==> has(bodyMap, declCTD(route).Fields[j].Name))
+
+// ---- calls by name (C02): bytecode is entered into the table of compiled routes only when every function it calls by name
+// ---- is one the VM provides (the compiler has just compiled this route: its record of called names is this route's)
+//@ func setupRoutes
+//@   assertat "compiledByRoute[route] = bytecode" forall(n, string, c.calls != nil && has(c.calls, n) ==> vmHas(n))
